@@ -108,6 +108,8 @@ RETS = {
     "int_u64": R("Result<u64, ()>", "if sel % 2 == 0 { Ok(k) } else { Err(()) }", attr="#[int_result]"),
     "int_unit": R("Result<(), ()>", "if sel % 2 == 0 { Ok(()) } else { Err(()) }", attr="#[int_result]"),
     "int_drop": R("Result<instr::Dc, ()>", "if sel % 2 == 0 { Ok(instr::Dc::new(k)) } else { Err(()) }", rdig="r.map(|d| d.val).dig()", attr="#[int_result]"),
+    # zero-sized success payload with a destructor: moved into the caller's slot once, like any other payload
+    "int_zst_drop": R("Result<instr::DcZst, ()>", "if sel % 2 == 0 { Ok(instr::DcZst::new()) } else { Err(()) }", rdig="r.map(|_| 1u64).dig()", attr="#[int_result]"),
     "int_io": R("Result<u64, ::std::io::Error>", "match sel % 3 { 0 => Ok(k), 1 => Err(::std::io::Error::from_raw_os_error(((k % 4000) as i32) + 1)), _ => Err(::std::io::Error::new(::std::io::ErrorKind::Other, \"x\")) }",
                 rdig="r.map_err(|e| if cur_sel() % 3 == 2 { 0u32 } else { e.raw_os_error().unwrap_or(-1) as u32 }).dig()", attr="#[int_result]"),
     "int_unit_io": R("Result<(), ::std::io::Error>", "match sel % 3 { 0 => Ok(()), 1 => Err(::std::io::Error::from_raw_os_error(((k % 4000) as i32) + 2)), _ => Err(::std::io::Error::from_raw_os_error(-(((k % 4000) as i32) + 2))) }",
@@ -116,7 +118,7 @@ RETS = {
     "no_int": R("Result<u64, u32>", "if sel % 2 == 0 { Ok(k) } else { Err(k as u32) }", attr="#[int_result]\n    #[no_int_result]"),
     "int_fmt": R("Result<u64, ::core::fmt::Error>", "if sel % 2 == 0 { Ok(k) } else { Err(::core::fmt::Error) }", rdig="r.map_err(|_| 1u32).dig()", attr="#[int_result]"),
 }
-SELS = {"opt_ptr": 3, "opt_q": 3, "res_q": 2, "int_q": 2, "slice_u8": 5, "slice_mut": 4, "str": 4, "opt_u64": 3, "opt_ref": 2, "res": 2, "res_unit": 2, "int_u64": 2, "int_unit": 2,
+SELS = {"int_zst_drop": 2, "opt_ptr": 3, "opt_q": 3, "res_q": 2, "int_q": 2, "slice_u8": 5, "slice_mut": 4, "str": 4, "opt_u64": 3, "opt_ref": 2, "res": 2, "res_unit": 2, "int_u64": 2, "int_unit": 2,
         "int_drop": 2, "int_io": 3, "int_unit_io": 3, "int_alias": 2, "no_int": 2, "int_fmt": 2}
 
 
